@@ -777,6 +777,25 @@ impl DiscoveryDB {
       .collect()
   }
 
+  // All remote readers and writers we currently know of the given participant
+  pub fn endpoints_of_participant(
+    &self,
+    participant: GuidPrefix,
+  ) -> (Vec<DiscoveredReaderData>, Vec<DiscoveredWriterData>) {
+    (
+      self
+        .external_topic_readers
+        .range(participant.range())
+        .map(|(_guid, drd)| drd.clone())
+        .collect(),
+      self
+        .external_topic_writers
+        .range(participant.range())
+        .map(|(_guid, dwd)| dwd.clone())
+        .collect(),
+    )
+  }
+
   // // TODO: return iterator somehow?
   #[cfg(test)] // used only for testing
   pub fn get_local_topic_readers<'a, T: TopicDescription>(
